@@ -558,9 +558,9 @@ theorem invariant_says_canonical {mx : Nat} {P : Pool} {L : Ledger} (hI : Inv mx
     · intro _; exact ⟨h3, hlast, hlen, hcmp, hmx⟩
     · intro hz; cases hz
 
-/-- (4) histories of PUBLIC operations: every `UBig` `+ - * << >>` in every ownership form is, storage-
-    wise, a history over `AOp` (the skeletons `fragAdd/fragSub/fragMul/fragShl/fragShr` of
-    `Model/Mem/Arith.lean`, mirrored from add_ops.rs / mul_ops.rs / shift_ops.rs and compared with the
+/-- (4) histories of PUBLIC operations: every `UBig` `+ - * / % << >>` in every ownership form is, storage-
+    wise, a history over `AOp` (the skeletons `fragAdd/fragSub/fragMul/fragDivRem/fragShl/fragShr` of
+    `Model/Mem/Arith.lean`, mirrored from add_ops.rs / mul_ops.rs / div_ops.rs / shift_ops.rs and compared with the
     real allocator event stream on every run), with the word-level kernels abstracted to an arbitrary
     `overwrite`.  Hence, after ANY sequence of such operations interleaved with any other history
     (clone, clone_from, from_words, drops, …), whatever the kernels wrote: all events are safe, no
